@@ -39,14 +39,79 @@ def chunks_of(eng, st, v):
 def bytes_len(chunks):
     t = bv(0, 64)
     for c in chunks:
-        t = t + (bv(c[1].size() // 8, 64) if c[0] == "b" else c[2])
+        if c[0] == "alt":
+            t = t + z3.If(c[1], bytes_len(c[2]), bytes_len(c[3]))
+            continue
+        t = t + (bv(c[1].size() // 8, 64) if c[0] == "b" else (c[1] if c[0] == "s" else c[2]))
     return simp(t)
+
+
+def append_chunks(chunks, new):
+    """chunks ++ new; an alternative at the end takes the new chunks into both of its sides"""
+    chunks = list(chunks)
+    new = list(new)
+    if not new:
+        return chunks
+    if chunks and chunks[-1][0] == "alt":
+        c = chunks[-1]
+        return chunks[:-1] + [("alt", c[1], tuple(append_chunks(c[2], new)), tuple(append_chunks(c[3], new)))]
+    return chunks + new
+
+
+def expand_alts(chunks, cond=None):
+    """-> [(path condition, flat chunk list)] of every alternative"""
+    cond = z3.BoolVal(True) if cond is None else cond
+    chunks = list(chunks)
+    if chunks and chunks[-1][0] == "alt":
+        c = chunks[-1]
+        pre = chunks[:-1]
+        return expand_alts(pre + list(c[2]), simp(z3.And(cond, c[1]))) + expand_alts(pre + list(c[3]), simp(z3.And(cond, z3.Not(c[1]))))
+    if any(c[0] == "alt" for c in chunks):
+        raise SymError("alternative in the middle of a byte string")
+    return [(cond, chunks)]
+
+
+def canon_chunks(chunks):
+    """Byte-level short strings ('s', length, bytes) are VARIABLE-LENGTH KNOWN bytes: a maximal run of adjacent ones is replaced by the canonical form of its
+    CONCATENATION (total length, bytes shifted into place, zero padding) -- so two runs are equal iff the concatenated byte strings are equal, exactly as a hash
+    sees them.  A length prefix or any other chunk between two such strings ends the run (they are then delimited and compared one by one)."""
+    out = []
+    i = 0
+    chunks = list(chunks)
+    while i < len(chunks):
+        if chunks[i][0] != "s":
+            out.append(chunks[i])
+            i += 1
+            continue
+        run = []
+        while i < len(chunks) and chunks[i][0] == "s":
+            run.append(chunks[i])
+            i += 1
+        cap = sum(len(c[2]) for c in run)
+        total = bv(0, 64)
+        cat = [bv(0, 8)] * cap
+        for c in run:
+            ln, bs = c[1], c[2]
+            new = []
+            for k in range(cap):
+                # byte k of the concatenation so far stays; positions total..total+ln-1 take this string's bytes
+                v = cat[k]
+                for j, b in enumerate(bs):
+                    v = z3.If(z3.And(z3.ULT(bv(j, 64), ln), total + j == k), b, v)
+                new.append(simp(v))
+            cat = new
+            total = simp(total + ln)
+        masked = [simp(z3.If(z3.ULT(bv(k, 64), total), cat[k], bv(0, 8))) for k in range(cap)]
+        out.append(("b", simp(z3.Concat(total, *masked)) if masked else total))
+    return out
 
 
 def bytes_key(chunks):
     """injective encoding of a chunk list of a FIXED shape as one bit-vector (for uninterpreted hash / verify functions)"""
+    if any(c[0] == "alt" for c in chunks):
+        raise SymError("byte string of path-dependent shape where a fixed shape is needed")
     parts = []
-    for c in chunks:
+    for c in canon_chunks(chunks):
         parts.append(c[1])
         if c[0] == "o":
             parts.append(c[2])
@@ -65,7 +130,7 @@ def _bytes_push(eng, st, args, dty, callee, m):
     v = eng.load(st, args[0])
     if not isinstance(v, VBytes):
         return NotImplemented
-    eng.store(st, args[0], VBytes(list(v.chunks) + [("b", args[1])]))
+    eng.store(st, args[0], VBytes(append_chunks(v.chunks, [("b", args[1])])))
     return UNIT
 
 
@@ -74,7 +139,7 @@ def _bytes_extend(eng, st, args, dty, callee, m):
     v = eng.load(st, args[0])
     if not isinstance(v, VBytes):
         return NotImplemented
-    eng.store(st, args[0], VBytes(list(v.chunks) + chunks_of(eng, st, args[1])))
+    eng.store(st, args[0], VBytes(append_chunks(v.chunks, chunks_of(eng, st, args[1]))))
     return UNIT
 
 
@@ -92,25 +157,65 @@ def _str_as_bytes(eng, st, args, dty, callee, m):
     s = deref(eng, st, args[0])
     if not isinstance(s, VStr):
         raise SymError("as_bytes of " + repr(s))
+    if s.bytes is not None:
+        # a byte-level short string: variable-length KNOWN bytes
+        return eng.alloc(st, VBytes([("s", s.bytes.len, tuple(s.bytes.elems))]), "T")
     return eng.alloc(st, VBlob(s.id, eng.str_len(s)), "T")
+
+
+def _mask_unused(x):
+    """canonical form of a value for serialisation: slots of a sequence beyond its length do not exist, so they must not distinguish two values"""
+    from values import VEnum as _VE, vmap
+
+    if isinstance(x, VSeq):
+        out = []
+        for i, e in enumerate(x.elems):
+            inside = z3.ULT(bv(i, 64), x.len)
+            e2 = _mask_unused(e)
+            out.append(vmap(e2, lambda l, inside=inside: simp(z3.If(inside, l, z3.BoolVal(False) if z3.is_bool(l) else (z3.FPVal(0.0, l.sort()) if z3.is_fp(l) else z3.BitVecVal(0, l.size()))))))
+        return VSeq(out, x.len)
+    if isinstance(x, VStruct):
+        return VStruct([_mask_unused(f) for f in x.f], x.ty)
+    if isinstance(x, _VE):
+        # the payload of a variant that is not the selected one does not exist either
+        def zero(l):
+            return z3.BoolVal(False) if z3.is_bool(l) else (z3.FPVal(0.0, l.sort()) if z3.is_fp(l) else z3.BitVecVal(0, l.size()))
+
+        pay = {}
+        for k, v in x.pay.items():
+            sel = x.idx == bv(k, x.idx.size()) if z3.is_bv(x.idx) else z3.BoolVal(True)
+            pay[k] = tuple(vmap(_mask_unused(p), lambda l, sel=sel: simp(z3.If(sel, l, zero(l)))) for p in v)
+        return _VE(x.info, x.idx, pay)
+    return x
 
 
 @first(r"^(postcard::)?to_stdvec::<.*>$|^(postcard::)?to_allocvec::<.*>$", "postcard::to_stdvec: Ok(opaque blob) -- an injective function of the serialised value (deterministic canonical encoding)")
 def _postcard_ser(eng, st, args, dty, callee, m):
-    x = deref(eng, st, args[0])
+    x = _mask_unused(deref(eng, st, args[0]))
     kid = key_bv(x)
     f = z3.Function(f"postcard_len_{kid.size()}", kid.sort(), z3.BitVecSort(64))
     return ok(VBytes([("o", kid, f(kid))]))
 
 
 def hash256(chunks):
-    k = bytes_key(chunks)
-    f = z3.Function(f"blake3_{k.size()}", k.sort(), z3.BitVecSort(256))
-    return f(k)
+    alts = expand_alts(chunks)
+    out = None
+    for cond, flat in reversed(alts):
+        k = bytes_key(flat)
+        f = z3.Function(f"blake3_{k.size()}", k.sort(), z3.BitVecSort(256))
+        out = f(k) if out is None else z3.If(cond, f(k), out)
+    return out
 
 
 def mk_hash(chunks):
-    return VStruct([VBytes(chunks)], "blake3::Hash")
+    """the hash value is represented by its (canonicalised) input; inputs whose shape depends on the path become one guarded alternative per path"""
+    alts = expand_alts(chunks)
+    if len(alts) == 1:
+        return VStruct([VBytes(canon_chunks(alts[0][1]))], "blake3::Hash")
+    rest = tuple(canon_chunks(alts[-1][1]))
+    for cond, flat in reversed(alts[:-1]):
+        rest = (("alt", cond, tuple(canon_chunks(flat)), rest),)
+    return VStruct([VBytes(rest)], "blake3::Hash")
 
 
 @first(r"^blake3::Hasher::new$", "blake3::Hasher::new")
@@ -121,7 +226,7 @@ def _hasher_new(eng, st, args, dty, callee, m):
 @first(r"^blake3::Hasher::update$", "blake3::Hasher::update: appends to the hashed byte string")
 def _hasher_update(eng, st, args, dty, callee, m):
     h = eng.load(st, args[0])
-    eng.store(st, args[0], VStruct([VBytes(list(h.f[0].chunks) + chunks_of(eng, st, args[1]))], "blake3::Hasher"))
+    eng.store(st, args[0], VStruct([VBytes(append_chunks(h.f[0].chunks, chunks_of(eng, st, args[1])))], "blake3::Hasher"))
     return args[0]
 
 
@@ -253,3 +358,13 @@ def _collect_map(eng, st, args, dty, callee, m):
         val = vmap(val, lambda a: next(it))
         enum.append((kb, k))
     return VMap(ksort, present, val, count, None, tuple(enum))
+
+
+@first(r"^(uuid::)?Uuid::as_bytes$", "Uuid::as_bytes: the 16 bytes of the (abstract 64-bit) identity, zero-extended")
+def _uuid_as_bytes(eng, st, args, dty, callee, m):
+    v = deref(eng, st, args[0])
+    leaves = flatten(v)
+    if len(leaves) != 1 or not z3.is_bv(leaves[0]):
+        raise SymError("Uuid::as_bytes of " + repr(v))
+    x = z3.ZeroExt(128 - leaves[0].size(), leaves[0]) if leaves[0].size() < 128 else leaves[0]
+    return eng.alloc(st, VArr([simp(z3.Extract(127 - 8 * i, 120 - 8 * i, x)) for i in range(16)]), "T")
